@@ -215,6 +215,36 @@ def _budgets(ctx: Ctx) -> None:
                    function=fi.qualname if fi else "<module>",
                    construct="FE budget")
     ctx.floor("execution_sites", n, 8)
+    # a module that announces an outer budget MAX_FES next to the budget
+    # INNER_MAX_FES of the runs nested in its objective gives the outer
+    # execution the outer budget (and the objective the inner one)
+    for mod in _modules(ctx):
+        consts = {t.id for st in mod.tree.body if isinstance(
+            st, (ast.Assign, ast.AnnAssign)) for t in (
+            st.targets if isinstance(st, ast.Assign) else [st.target])
+            if isinstance(t, ast.Name)}
+        if not {"MAX_FES", "INNER_MAX_FES"} <= consts:
+            continue
+        bad_b = []
+        n_b = 0
+        for c in ast.walk(mod.tree):
+            if isinstance(c, ast.Call) and isinstance(
+                    c.func, ast.Attribute) and c.func.attr == "set_max_fes" \
+                    and c.args:
+                n_b += 1
+                names = {x.id for x in ast.walk(c.args[0])
+                         if isinstance(x, ast.Name)}
+                if "INNER_MAX_FES" in names or "MAX_FES" not in names:
+                    bad_b.append(c)
+        ctx.ob("D12.2", mod, bad_b[0] if bad_b else mod.tree, not bad_b,
+               f"{mod.name}: the run is limited to the announced MAX_FES "
+               f"({n_b} site(s)); INNER_MAX_FES only reaches the nested runs"
+               if not bad_b else
+               f"{mod.name}: `{ast.unparse(bad_b[0])[-60:]}` - the outer run "
+               "does not get the announced budget MAX_FES: it runs beyond "
+               "(or short of) the budget the module declares",
+               function="<module>", construct="announced budget is used",
+               nontrivial=n_b > 0)
     # the bundled surrogate experiment passes FE budgets only
     es = ctx.repo.module("moptipyapps.dynamic_control.experiment_surrogate")
     bad = []
